@@ -1,4 +1,4 @@
 #!/bin/sh
 # usage: killcheck.sh : runs every recorded property-breaking change (seeded/, /tmp/out2-*, mutants/catalogue)
 # on scratch copies in parallel and lists those that NO rule reports (must stay empty).
-ls -d /verif/seeded/*/ /tmp/out2-C*/[CDE]/ /verif/mutants/catalogue/*/ 2>/dev/null | xargs -P 10 -I{} sh -c 'r=$(/verif/seedtest2.sh {}patch.diff 2>&1 | grep -c "^VIOLATION"); echo "$r {}"' | sort -n | awk '$1==0{print "MISSED " $2} {n++} END{print n " changes checked"}'
+ls -d /verif/seeded/*/ /verif/mutants/catalogue/*/ 2>/dev/null | xargs -P 10 -I{} sh -c 'r=$(/verif/seedtest2.sh {}patch.diff 2>&1 | grep -c "^VIOLATION"); echo "$r {}"' | sort -n | awk '$1==0{print "MISSED " $2} {n++} END{print n " changes checked"}'
